@@ -62,8 +62,8 @@ Definition encode (o : obj) : list Z :=
 Inductive storage := SFull | SSym | SSparse.
 Record linfo := { i_nl : Z; i_nc : Z; i_st : storage; i_dim : Z }.
 
-(* (long)ui*(ui+1)*sizeof(double)/2 : ui+1 is a 32-bit unsigned sum, the product by sizeof is 64-bit unsigned *)
-Definition symsize (ui : Z) : Z := ((ui * ((ui + 1) mod W32)) * 8 mod W64) / 2.
+(* (long)ui*((long)ui+1)*sizeof(double)/2 : 64-bit; the product by sizeof is 64-bit unsigned (repaired: ui+1 was 32-bit) *)
+Definition symsize (ui : Z) : Z := ((ui * (ui + 1)) * 8 mod W64) / 2.
 
 Definition info (bs : list Z) : res (linfo * list Z) :=
   let size := Z.of_nat (length bs) - 4 in
